@@ -89,7 +89,7 @@ def refactor_variants(prop: str) -> list[tuple]:
             meta = json.load(open(mp))
         except ValueError:
             continue
-        if prop in (meta.get("props") or []):
+        if prop in (meta.get("props") or []) and prop not in (meta.get("rekeyed_known_findings") or {}):
             out.append((f"refactor-{d}", prop, "-", "@silent", pp))
     return out
 
